@@ -26,6 +26,7 @@ def run(ck, fb):
     r13o(ck, fb)
     r13p(ck, fb)
     r13q(ck, fb)
+    r13r(ck, fb)
 
 
 def _run0(ck, fb):
@@ -736,3 +737,21 @@ def r13q(ck, fb, R='R13q'):
                    'a heartbeat with a non-empty groupName parameter can be converted without that group being applied when the beat JSON %s: the beat '
                    'refreshes (or registers) an instance of another group and the instance it was sent for expires although its client keeps beating'
                    % ('has no serviceName' if absent else 'carries a bare serviceName'), 'the request group is applied on every Ok path')
+
+
+def r13r(ck, fb, R='R13r'):
+    ck.rule(R, 'a peer\'s copy of an instance this node owns is never taken for a heartbeat, whatever the two time stamps say: the copy\'s '
+               'last_modified_millis is the time the PEER received the sync, which for a silent instance is always later than the owner\'s last '
+               'event. In NamingActor::receive_snapshot the decision to skip such a copy (R13l) consults no last_modified_millis - neither in the '
+               'function nor in the closures it passes: a "newer copy wins" refinement re-arms the clock of an instance whose heartbeats have '
+               'stopped every time a snapshot arrives (the 15 s / 45 s pulls after a restart, a restarted peer\'s push), and it stays healthy')
+    b = ck.body(NA + 'receive_snapshot', R)
+    if not b:
+        return
+    reg = [b] + [c for c in fb.tree(NA + 'receive_snapshot')[1:]]
+    ck.floor(R, 'bodies of receive_snapshot (function + closures)', len(reg), 1)
+    hits = [(x, bb) for x in reg for (o, f, bb, st) in x.field_reads() if f == 'last_modified_millis']
+    ck.require(not hits, R, 'receive_snapshot:own-copy-skip-ignores-time-stamps', (hits[0][0].where(hits[0][1]) if hits else b.where()),
+               'receive_snapshot reads last_modified_millis: whether a peer\'s copy of an instance this node owns is applied depends on time stamps, and the '
+               'copy of a silent instance always carries the newer one - it is applied like a heartbeat, the instance is healthy again and its clock '
+               'restarts although no heartbeat arrived', 'no time stamp consulted')
